@@ -164,6 +164,7 @@ type rw struct {
 	useFS   bool
 	tmpN    int
 	snap    bool
+	lite    bool // memberlist: only the select / map-range rewrites, no yields
 }
 
 var atomicMethods = map[string]bool{"Load": true, "Store": true, "Add": true, "CompareAndSwap": true, "Swap": true}
@@ -246,6 +247,12 @@ func rewriteMutexOnly(path string, src []byte) ([]byte, bool, error) {
 	}
 	f.Comments = keep
 	r.replaceMutexTypes()
+	r.lite = true
+	for _, d := range f.Decls {
+		if fd, ok := d.(*ast.FuncDecl); ok && fd.Body != nil {
+			r.block(fd.Body)
+		}
+	}
 	if !r.changed {
 		return nil, false, nil
 	}
@@ -459,13 +466,16 @@ func (r *rw) stmts(list []ast.Stmt) []ast.Stmt {
 			for _, c := range s.Body.List {
 				cc := c.(*ast.CommClause)
 				cc.Body = r.stmts(cc.Body)
-				if cc.Comm != nil { // not the default case: we were just woken by a channel op
+				if cc.Comm != nil && !r.lite { // not the default case: we were just woken by a channel op
 					cc.Body = append([]ast.Stmt{r.yieldStmt(cc)}, cc.Body...)
 				}
 			}
 		case *ast.LabeledStmt:
 			if sel, ok := s.Stmt.(*ast.SelectStmt); ok && commCases(sel) >= 2 {
-				fatal("%s: labelled select with several cases is not supported", r.site(s))
+				if !r.lite {
+					fatal("%s: labelled select with several cases is not supported", r.site(s))
+				}
+				noDet[sel] = true // the label must stay on the select
 			}
 			if rs, ok := s.Stmt.(*ast.RangeStmt); ok {
 				noSort[rs] = true // the label must stay on the loop
@@ -494,16 +504,21 @@ func (r *rw) stmts(list []ast.Stmt) []ast.Stmt {
 		}
 		r.funcLits(st)
 		// go statements
-		if g, ok := st.(*ast.GoStmt); ok {
+		if g, ok := st.(*ast.GoStmt); ok && !r.lite {
 			out = append(out, r.goStmt(g)...)
 			continue
 		}
 		// read-modify-write splitting
-		if sp := r.splitRMW(st); sp != nil {
-			out = append(out, sp...)
-			continue
+		if !r.lite {
+			if sp := r.splitRMW(st); sp != nil {
+				out = append(out, sp...)
+				continue
+			}
 		}
 		before, recv := headerHas(st)
+		if r.lite {
+			before, recv = false, false
+		}
 		if before {
 			out = append(out, r.yieldStmt(st))
 		}
@@ -791,7 +806,7 @@ func commCases(s *ast.SelectStmt) int {
 // The clause bodies have been instrumented already.
 func (r *rw) detSelect(s *ast.SelectStmt) ast.Stmt {
 	n := commCases(s)
-	if n < 2 {
+	if n < 2 || noDet[s] {
 		return nil
 	}
 	r.tmpN++
@@ -918,12 +933,20 @@ func unparen(e ast.Expr) ast.Expr {
 
 var orderedKey = map[string]bool{"string": true, "int": true, "int32": true, "int64": true, "uint32": true, "uint64": true, "LamportTime": true}
 var mapFields = map[string]bool{}    // field name -> declared somewhere as map[ordered]...
+var anyMapFields = map[string]bool{} // field name -> declared somewhere as a map with another (comparable) key type
 var nonMapFields = map[string]bool{} // field name -> declared somewhere as something else
 var noSort = map[*ast.RangeStmt]bool{}
+var noDet = map[*ast.SelectStmt]bool{}
 
 func collectMapFields() {
+	dirs := []string{}
 	for _, p := range pkgs {
-		dir := filepath.Join(*repo, p)
+		dirs = append(dirs, filepath.Join(*repo, p))
+	}
+	if *mlDir != "" {
+		dirs = append(dirs, *mlDir)
+	}
+	for _, dir := range dirs {
 		ents, _ := os.ReadDir(dir)
 		for _, e := range ents {
 			name := e.Name()
@@ -940,16 +963,21 @@ func collectMapFields() {
 					return true
 				}
 				for _, fld := range st.Fields.List {
-					isMap := false
+					isMap, isAnyMap := false, false
 					if mt, ok := fld.Type.(*ast.MapType); ok {
 						if id, ok := mt.Key.(*ast.Ident); ok && orderedKey[id.Name] {
 							isMap = true
+						} else {
+							isAnyMap = true
 						}
 					}
 					for _, nm := range fld.Names {
-						if isMap {
+						switch {
+						case isMap:
 							mapFields[nm.Name] = true
-						} else {
+						case isAnyMap:
+							anyMapFields[nm.Name] = true
+						default:
 							nonMapFields[nm.Name] = true
 						}
 					}
@@ -962,8 +990,13 @@ func collectMapFields() {
 
 func (r *rw) sortedRange(s *ast.RangeStmt) ast.Stmt {
 	se, ok := s.X.(*ast.SelectorExpr)
-	if !ok || noSort[s] || !mapFields[se.Sel.Name] || nonMapFields[se.Sel.Name] {
+	if !ok || noSort[s] || nonMapFields[se.Sel.Name] || (!mapFields[se.Sel.Name] && !anyMapFields[se.Sel.Name]) {
 		return nil
+	}
+	helper := "SortedKeys"
+	if !mapFields[se.Sel.Name] || anyMapFields[se.Sel.Name] {
+		// keys without an order (interfaces, pointers): order of first sight
+		helper = "StableKeys"
 	}
 	if s.Tok != token.DEFINE && (s.Key != nil || s.Value != nil) {
 		return nil
@@ -989,7 +1022,7 @@ func (r *rw) sortedRange(s *ast.RangeStmt) ast.Stmt {
 func _() {
 {
 %s := %s
-for _, %s := range vsched.SortedKeys(%s) {
+for _, %s := range vsched.%s(%s) {
 %s, %s := %s[%s]
 if !%s {
 continue
@@ -999,7 +1032,7 @@ _vsBODY()
 }
 }
 }
-`, m, exprString(r.fset, s.X), k, m, val, okv, m, k, okv, bind)
+`, m, exprString(r.fset, s.X), k, helper, m, val, okv, m, k, okv, bind)
 	f, err := parser.ParseFile(r.fset, fmt.Sprintf("_vrange%d_%s", r.tmpN, filepath.Base(r.rel)), src, 0)
 	if err != nil {
 		fatal("%s: generated range does not parse: %v\n%s", r.site(s), err, src)
